@@ -69,7 +69,12 @@ def _prune_cache(keep):
     except OSError:
         return
     ents.sort(key=lambda p: os.path.getmtime(p), reverse=True)
-    for p in ents[60:]:
+    now = time.time()
+    for p in ents[40:]:
+        # keep anything used in the last 30 minutes (parallel self-test / scratch runs must not evict /repo's facts)
+        if p != keep and now - os.path.getmtime(p) > 1800:
+            shutil.rmtree(p, ignore_errors=True)
+    for p in ents[400:]:
         if p != keep:
             shutil.rmtree(p, ignore_errors=True)
     for d in os.listdir(CACHE):
